@@ -72,7 +72,7 @@ func c18Statement(r *core.Rand, g *gen.StmtGen) (string, string) {
 		// separators, dot names, a NUL byte, the empty name
 		long := strings.Repeat("n", []int{255, 256, 300, 5000}[r.Intn(4)])
 		name := pick(r, []string{long, long, `"a/b"`, `".."`, `"."`, "\"a\x00b\"", `""`, `"x` + long + `"`, `" "`})
-		return fmt.Sprintf(pick(r, []string{"CREATE DATABASE %s", "USE %s", "CREATE TABLE %s (a int)", "SELECT * FROM %s", "INSERT INTO %s VALUES (1)", "CREATE TABLE nt5 (%s int)", "SELECT %s FROM t1", "DELETE FROM %s", "UPDATE %s SET i = 1"}), name), "hostile_names"
+		return fmt.Sprintf(pick(r, []string{"CREATE DATABASE %s", "USE %s", "CREATE TABLE %s (a int)", "CREATE TABLE %s ()", "CREATE TABLE %s ()", "SELECT * FROM %s", "INSERT INTO %s VALUES (1)", "CREATE TABLE nt5 (%s int)", "SELECT %s FROM t1", "DELETE FROM %s", "UPDATE %s SET i = 1"}), name), "hostile_names"
 	case 25:
 		// LIMIT / OFFSET at the edge of 64 bits, alone and together
 		big := pick(r, []string{"9223372036854775807", "9223372036854775806", "4611686018427387904", "2147483648"})
